@@ -142,12 +142,56 @@ def run(ctx):
                     ctx.violate("%s is not idempotent on %r: %r then %r" % (dt, s, r[1], r2), {"datatype": dt, "input": s},
                                 signature="C09:%s:idempotence" % dt)
         ctx.sample({"datatype": dt, "input": inputs[len(inputs) // 2], "impl": repr(impl_conv(fn, inputs[len(inputs) // 2]))})
-    # timedelta: total with the documented TypeError carve-out
-    for s in EXTRA["float"] + ["4w 2d", "1.5h", "5x", "5", "s", "", "1w1d", "٣d", " 2m ", "1e3s", "infs", "nanw", "-1d", "1d 2d", "1_0s"]:
-        r = impl_conv(reg.get("timedelta"), s)
+    # timedelta: model (ZCV/Model/Timedelta.lean) vs the real function.  The model decides the loop over the parts (which
+    # unit receives which float literal, ValueError for a bad amount, TypeError for an unknown unit); what
+    # datetime.timedelta then does with the numbers (NaN, infinity, > 999999999 days -> ValueError) is outside it.
+    import ZConfig.datatypes as Dm
+    td_inputs = EXTRA["float"] + ["4w 2d", "1.5h", "5x", "5", "s", "", "1w1d", "\u0663d", " 2m ", "1e3s", "infs", "nanw", "-1d", "1d 2d",
+                                  "1_0s", "1W", "12", "1 w", "2 1x", "1w 2w", "1d\x0c2h", "1e400d", "9999999999d"]
+    pool = "0123456789.eE+-_wdhmsWDx \tinfa"
+    td_inputs += list(util.enum_strings("1.ewdx -", 4 if not ctx.thorough() else 5))
+    td_inputs += ["".join(ctx.rng.choice(pool) for _ in range(ctx.rng.randint(1, 10))) for _ in range(20000 if ctx.thorough() else 2500)]
+    td_ans = core.driver_batch([[Atom("timedelta"), s] for s in td_inputs]) if ctx.driver_ok else [None] * len(td_inputs)
+
+    class _Rec:
+        """stands for the datetime module inside ZConfig.datatypes while timedelta() runs: records the constructor arguments"""
+        def __init__(self, real):
+            self.real, self.kw = real, None
+
+        def timedelta(self, **kw):
+            self.kw = kw
+            return self.real.timedelta(**kw)
+    real_dt = Dm.datetime
+    for s, a in zip(td_inputs, td_ans):
+        rec = _Rec(real_dt)
+        Dm.datetime = rec
+        try:
+            r = impl_conv(Dm.timedelta, s)
+        finally:
+            Dm.datetime = real_dt
         ctx.evaluations += 1
+        ctx.count("timedelta:%s" % (r[0] if r[0] != "err" else r[1]))
         if r[0] == "exc":
             ctx.violate("timedelta(%r) raised %s" % (s, r[1]), {"datatype": "timedelta", "input": s}, signature="C09:timedelta:exc:" + r[1])
+            continue
+        if a is None:
+            continue
+        if a[0] == "err":
+            if not (r[0] == "err" and r[1] == str(a[1])):
+                ctx.disagree("timedelta", s, r[:2] if r[0] == "err" else ["ok"], a)
+            continue
+        # model says the loop completed: the constructor must have been called with exactly these amounts
+        if rec.kw is None:
+            ctx.disagree("timedelta", s, r[:2] if r[0] == "err" else ["ok", "constructor not called"], a)
+            continue
+        want = {}
+        for unit, lit in zip(("weeks", "days", "hours", "minutes", "seconds"), a[1]):
+            want[unit] = 0 if lit == "none" else float(lit)
+
+        def eqf(x, y):
+            return (isinstance(x, float) and isinstance(y, float) and math.isnan(x) and math.isnan(y)) or x == y
+        if set(rec.kw) != set(want) or not all(eqf(rec.kw[k], want[k]) for k in want):
+            ctx.disagree("timedelta", s, {k: repr(v) for k, v in rec.kw.items()}, a)
     ctx.cov["exhaustive"] = True
     return core.finish(ctx, obligations, discharged, names, RULE,
                        "lake build ZCV.Props.C09 && lake env lean ZCV/Audit/C09.lean",
